@@ -1,6 +1,6 @@
 // C16 harness: runs the REAL comparators and the REAL CheckOrder on the op lines the
 // Lean model driver (lean/Driver/C16.lean) also receives.
-//   cmp t1 id1 v1 ts1 vis1 t2 id2 v2 ts2 vis2 -> "lt nots rev eq eqti idorder"
+//   cmp t1 id1 v1 ts1 vis1 t2 id2 v2 ts2 vis2 -> "lt nots rev eq eqti idorder gt le ge ne"
 //   chk k:id ...                                -> "1"/"0"
 //   sortchk <objs as t:id:v:ts:vis> ...         -> property monitor on the implementation
 //       alone: sort with operator< via ObjectPointerCollection, then CheckOrder; prints
@@ -91,7 +91,8 @@ int main() {
                        b01(osmium::object_order_type_id_reverse_version{}(oa, ob)) + " " +
                        b01(osmium::object_equal_type_id_version{}(oa, ob)) + " " +
                        b01(osmium::object_equal_type_id{}(oa, ob)) + " " +
-                       b01(osmium::id_order{}(oa.id(), ob.id()));
+                       b01(osmium::id_order{}(oa.id(), ob.id())) + " " +
+                       b01(oa > ob) + " " + b01(oa <= ob) + " " + b01(oa >= ob) + " " + b01(oa != ob);
             }
             if (w[0] == "chk") {
                 Buffer buf{4096, Buffer::auto_grow::yes};
